@@ -10,7 +10,7 @@ TRUSTED_BASE = ['pyvc VC generator', 'z3 5.1', 'cvc5 1.0.3 (only for queries z3 
 PROPS = {
     'C04': dict(
         level='proof',
-        contracts=['C04'],
+        contracts=['C04', 'body_read'],
         frames=[],
         technique='deductive: loop-invariant VCs generated from the real AST of _iter_body/_body_read, discharged by z3/cvc5; '
                   'bounded run-time contract check as replay harness',
@@ -19,6 +19,38 @@ PROPS = {
         level_text='Proof: every VC generated from the current source of _iter_body / _body_read under the stated contracts is '
                    'discharged (all inputs, all fragmentations, all iteration counts); the bounded contract run is the replay harness.',
         level_note='Assumes the server read(n) contract (PEP 3333), io.BytesIO/TemporaryFile library contract, buff_size >= 1; trusts pyvc and the solvers.',
+        trusted_base=['server read(n) contract (PEP 3333)', 'io.BytesIO/TemporaryFile write/getvalue (library contract)'],
+    ),
+    'C05': dict(
+        level='proof',
+        contracts=['C05', 'body_read'],
+        frames=[],
+        technique='deductive: loop-invariant VCs over ghost stream state generated from the real AST of _iter_chunked / _body_read, '
+                  'z3 then cvc5; bounded run-time contract check against an RFC 7230 reference decoder as replay harness',
+        explanation='VCs over the real source of the chunked reader: per chunk exactly n payload bytes are consumed, yielded in '
+                    'order and followed by CRLF; a size line is accepted only up to its first CRLF within the buffer; normal exit '
+                    'only after a zero-size line; every raise is a BodyParsingError justified by the stream (EOF, over-long line, '
+                    'unparsable size, missing CRLF), never by read fragmentation; all three loops terminate.',
+        level_text='Proof of the per-chunk contract, the exit condition, the exception frame and the fragmentation-independence of '
+                   'rejection for all streams, buffers and read fragmentations; the composition over chunks is carried by the ghost '
+                   'accumulation in the outer invariant; agreement with an independent RFC 7230 decoder is checked bounded.',
+        level_note='Assumes the server read(n) contract (PEP 3333), int(b,16) as a partial function, buff_size >= 1; trusts pyvc and the solvers. '
+                   'Equality with the reference decoder (what counts as a legal size line) is bounded, not proved.',
+        trusted_base=['server read(n) contract (PEP 3333)', 'int(bytes, 16) partial-function abstraction'],
+    ),
+    'C13': dict(
+        level='proof',
+        contracts=['body_read', 'C04', 'C05'],
+        frames=[],
+        technique='deductive: loop-invariant VCs from the real AST of _body_read (limit, spooling, content) on top of the proved '
+                  'generator contracts of _iter_body/_iter_chunked (part size <= buffer); bounded run-time check as replay harness',
+        explanation='VCs over _body_read: BodySizeError is raised iff the accumulated size exceeds max_body_size at a part boundary, '
+                    'at that moment at most limit + one buffer of payload was taken; spooled to a TemporaryFile iff size > threshold, '
+                    'content identical; parts are bounded by the buffer (proved on the generators).',
+        level_text='Proof for the reader (_body_read and both generators): size limit, one-buffer overshoot bound, spool switch and '
+                   'content equality for all inputs; the mapping to 413 and the form-text budget are checked by VCs on _raise / '
+                   '_get_body_string / FieldStorage.read where contracted, otherwise bounded.',
+        level_note='Assumes io.BytesIO/TemporaryFile library contract, max_body_size None or >= 0, buff_size >= 1; trusts pyvc and the solvers.',
         trusted_base=['server read(n) contract (PEP 3333)', 'io.BytesIO/TemporaryFile write/getvalue (library contract)'],
     ),
 }
